@@ -62,7 +62,7 @@ fn axis_names(shape: &str, axis: char, rng: &mut Rng) -> (String, String, String
 }
 
 fn sep(rng: &mut Rng) -> &'static str {
-    *rng.pick(&[" ", ",", ", ", "  ", " , "])
+    *rng.pick(&[" ", ",", ", ", "  ", " , ", "\t", " ,", ",\t "])
 }
 
 /// One spelling of `b` for `shape`: a sufficient constraint pair per axis, then optional shorthand
